@@ -119,7 +119,7 @@ def run(facts, R):
                 R.check(how.startswith("Shutdown::Both"), "shutdown-wakes-reader", b.path, "socket shut down in both directions",
                         "the connection is shut down with %s: the reader thread stays blocked in read(), fail_all_pending does not run and calls in flight hang "
                         "until the peer closes" % how, t.get("span"), how)
-    R.floor("shutdown-wakes-reader", n_sd, 4, "TcpStream::shutdown calls in the blocking client")
+    R.floor("shutdown-wakes-reader", n_sd, 2, "TcpStream::shutdown calls in the blocking client")
 
     # ---------------- write-failure-returns + pending-removed-on-abandon ---------------------------------
     # blocking client
